@@ -430,14 +430,26 @@ func fanout(st *staged, prop string, seed uint64, thorough bool, workers, random
 	}
 	wg.Wait()
 	if failed != "" {
-		st.cleanup()
+		// Worker trouble is never a verdict by itself. It does not erase what
+		// the other workers found either: a violation that replays from its
+		// file in a fresh process stands; without one the check ends with exit 2.
 		os.MkdirAll(filepath.Join(verif, "replays"), 0o755)
 		logf := filepath.Join(verif, "replays", fmt.Sprintf("infra-%s-%d.log", prop, time.Now().Unix()))
 		os.WriteFile(logf, []byte(failed), 0o644)
-		die(2, "INFRA: worker trouble (this is not a verdict; details also in %s):\n%s", logf, failed)
+		workerTrouble = fmt.Sprintf("INFRA: worker trouble (this is not a verdict; details also in %s):\n%s", logf, failed)
+		var ok []*driver.WorkerOut
+		for _, o := range outs {
+			if o != nil {
+				ok = append(ok, o)
+			}
+		}
+		outs = ok
 	}
 	return outs
 }
+
+// workerTrouble is set when worker processes of the bulk phase died or hung.
+var workerTrouble string
 
 // isolated runs n plans of the scenario's GenIso, each in a process of its own.
 // A process that dies is counted, not fatal: the verdict comes from the runs
@@ -697,6 +709,14 @@ func report(st *staged, prop string, cfg propCfg, tier string, seed uint64, outs
 		exit = 1
 	}
 
+	if workerTrouble != "" {
+		if exit != 1 {
+			st.cleanup()
+			die(2, "%s", workerTrouble)
+		}
+		fmt.Printf("note: besides the violation above (confirmed by replay in a fresh process), some worker processes died or hung — typically the same defect keeping a goroutine busy; not part of the verdict:\n%s\n", tail(workerTrouble, 12))
+		writeEvidence = false
+	}
 	wallS := time.Since(start).Seconds()
 	// site×outcome coverage
 	siteHit := map[string]bool{}
